@@ -644,10 +644,8 @@ UPGRADER:
 			}
 		case stateBodyTrailerHeaderValue:
 			switch c {
-			case ' ':
-				if p.headerValue == "" {
-					p.headerValue = string(data[start:i])
-				}
+			case '\n':
+				return ErrInvalidCharInHeader
 			case '\r':
 				if p.headerValue == "" {
 					p.headerValue = string(data[start:i])
